@@ -4,26 +4,29 @@ Imports model files only (no Mathlib) so that it links as an executable.
 -/
 import RepidModel
 
-open Repid Sexp
+open Repid Sexp Driver
 
-def dispatch (cmd : String) (args : List Sexp) : Option Sexp :=
-  (Driver.sched cmd args)
+def handlers : List Handler := [pureHandler Driver.sched, Driver.mem]
 
-def answer (line : String) : String :=
+def dispatch (st : DState) (cmd : String) (args : List Sexp) : Option (DState × Sexp) :=
+  handlers.firstM fun h => h st cmd args
+
+def answer (st : DState) (line : String) : DState × String :=
   match parse line with
   | some (.list (.atom cmd :: args)) =>
-    match dispatch cmd args with
-    | some r => render r
-    | none => "bad-op"
-  | _ => "bad-op"
+    match dispatch st cmd args with
+    | some (st', r) => (st', render r)
+    | none => (st, "bad-op")
+  | _ => (st, "bad-op")
 
-partial def loop (h : IO.FS.Stream) (out : IO.FS.Stream) : IO Unit := do
+partial def loop (h : IO.FS.Stream) (out : IO.FS.Stream) (st : DState) : IO Unit := do
   let line ← h.getLine
   if line.isEmpty then return ()
-  out.putStrLn (answer line)
-  loop h out
+  let (st', a) := answer st line
+  out.putStrLn a
+  loop h out st'
 
 def main : IO Unit := do
   let out ← IO.getStdout
-  loop (← IO.getStdin) out
+  loop (← IO.getStdin) out {}
   out.flush
